@@ -72,6 +72,12 @@ fn encoder_case(ctx: &Ctx, idx: u64, r: &mut Rng) -> Vec<CaseOut> {
     } else {
         None
     };
+    // any writer: enough input for the encoder window to slide a few times (the window holds about
+    // 1.5 x dict + 256 KiB), the peak has to stay below the estimate while the writer runs
+    if chunk.is_none() && idx >= 10 && r.chance(1, 3) {
+        o.dict_size = *r.pick(&[4096u32, 65536, 1 << 18, 1 << 20]);
+        len = 2 * o.dict_size as usize + (512 << 10) + r.usize_below(100_000);
+    }
     let estimate_kib = match catch(|| o.get_memory_usage()) {
         Ok(e) => e,
         Err(p) => {
